@@ -197,7 +197,18 @@ def check(prop: str, tier: str, verif_seed: int) -> int:
         spec = s['spec']
         again = core.run_spec(world, spec)
         v2 = again.get('violation')
-        if not v2 or v2['oracle'] != oracle:
+        if v2 and v2['oracle'] != oracle:
+            # the session violates the property on both executions, with two different symptoms (typical of a process that
+            # writes or reads outside its memory: it dies once, raises the next time): reported as it is, not minimised
+            path = core.write_replay(spec, again)
+            replays.append(path)
+            print(f'  oracle {v2["oracle"]} at op {v2["op"]}: {v2["message"]}')
+            print(f'  (first execution: oracle {oracle}; the two executions of seed {spec["run_seed"]} fail in different ways, '
+                  f'the session is reported unminimised)')
+            print(f'VIOLATION property={prop} replay={path}', flush=True)
+            exit_code = max(exit_code, 1)
+            continue
+        if not v2:
             print(f'HARNESS-ERROR property={prop} violation {oracle} of seed {spec["run_seed"]} did not '
                   f'reproduce on re-execution ({v2})', flush=True)
             exit_code = 2
